@@ -32,6 +32,8 @@ VARIANTS = [
     ('cf1d no lat units', {'conv': 'cf1d'}, [('drop_attr', 'lat', 'units')], None),
     ('cf2d', {'conv': 'cf2d'}, [], 'CFGrid2D'),
     ('cf2d no lon', {'conv': 'cf2d'}, [('drop_var', 'lon')], None),
+    ('cf2d with a 1-D longitude', {'conv': 'cf2d'}, [('coord_1d', 'lon', 'i')], None),
+    ('cf2d with a 1-D latitude', {'conv': 'cf2d'}, [('coord_1d', 'lat', 'j')], None),
     ('shoc simple', {'conv': 'shoc_simple'}, [], 'ShocSimple'),
     ('shoc simple no ems_version', {'conv': 'shoc_simple'}, [('drop_global', 'ems_version')], 'CFGrid2D'),
     ('shoc standard', {'conv': 'shoc_standard'}, [], 'ShocStandard'),
@@ -69,6 +71,11 @@ def build(spec, mods):
             ds.attrs.pop(m[1], None)
         elif m[0] == 'set_global':
             ds.attrs[m[1]] = m[2]
+        elif m[0] == 'coord_1d':
+            # one of the two coordinates of a curvilinear grid replaced by a one-dimensional variable of the same name
+            v = ds[m[1]]
+            ds = ds.drop_vars(m[1])
+            ds[m[1]] = xarray.DataArray(numpy.arange(ds.sizes[m[2]], dtype=float) + 100.0, dims=[m[2]], attrs=dict(v.attrs))
         elif m[0] == 'prepend_stations':
             # 1-D station positions stored ahead of everything else (first in dataset.variables)
             first = {n: xarray.DataArray(numpy.array([-20.5, -19.25, -18.0]) if 'lat' in n else numpy.array([150.5, 151.25, 152.0]), dims=['station'],
